@@ -1468,7 +1468,11 @@ def regenerate(ctx):
                        extract_recipgrid)):
         try:
             changed = mod.regenerate()
-            out.append((name, True, 'regenerated' if changed else 'unchanged'))
+            detail = 'regenerated' if changed else 'unchanged'
+            if getattr(mod, 'LAST', None):
+                detail += ' (source={})'.format(mod.LAST['source'])
+                ctx.extra['recipgrid_table_source'] = dict(mod.LAST)
+            out.append((name, True, detail))
         except Exception as e:  # grammar no longer matches the source: broken obligation
             _STATE['extraction_broken'] = True
             out.append((name, False, '{}: {}'.format(type(e).__name__, e)))
